@@ -57,6 +57,8 @@ Record case := {
   i_refused : bool;
   i_out : path; i_gd : option path; i_srcs : list path; i_excl : list path;
   i_ops : list op;
+  k_candidates : list path;            (* files of the sandbox with a source-file extension *)
+  i_found : option (list path);        (* project.allfiles, when the project was built *)
   i_post : list (path * node);
   i_post_meta : list (path * meta) }.
 
@@ -71,6 +73,16 @@ Definition cfg_agrees (k : case) : bool :=
   path_eqb (out c) (i_out k) && opt_eqb path_eqb (graph_dir c) (i_gd k)
   && list_eqb path_eqb (srcs c) (i_srcs k) && list_eqb path_eqb (excl c) (i_excl k).
 
+(* find_all_files: the files FORD documents are the candidates the model's [discovered] keeps *)
+Definition mem_path (p : path) (l : list path) : bool := existsb (path_eqb p) l.
+Definition discovery_agrees (k : case) : bool :=
+  match i_found k with
+  | None => true
+  | Some found =>
+    let kept := filter (discovered (model_cfg k)) (k_candidates k) in
+    forallb (fun f => mem_path f kept) found && forallb (fun f => mem_path f found) kept
+  end.
+
 Definition final_agrees (k : case) : bool :=
   let f := run (model_ops k) (model_fs0 k) in
   forallb (fun p => opt_eqb node_eqb (f p) (lookup p (i_post k)))
@@ -79,6 +91,7 @@ Definition final_agrees (k : case) : bool :=
 Definition model_mismatch (k : case) : bool :=
   negb (cfg_agrees k)
   || negb (Bool.eqb (refuse (model_cfg k)) (i_refused k))
+  || negb (discovery_agrees k)
   || match k_mode k with
      | 0 => negb (list_eqb op_eqb (model_ops k) (i_ops k)) || negb (final_agrees k)
      | 1 => negb (prefix_ops (i_ops k) (model_ops k))
@@ -152,7 +165,8 @@ Definition explain (k : case) : list string :=
   let c := model_cfg k in
   [("model out: " ++ show_path (out c))%string;
    (if refuse c then "model: refuse" else "model: run")%string;
-   (if cfg_agrees k then "cfg agrees" else "cfg DIFFERS")%string]
+   (if cfg_agrees k then "cfg agrees" else "cfg DIFFERS")%string;
+   (if discovery_agrees k then "source discovery agrees" else "source discovery DIFFERS")%string]
   ++ map (fun o => ("model " ++ show_op o)%string) (model_ops k)
   ++ map (fun p => ("final differs at " ++ show_path p ++ " model="
                     ++ show_node (run (model_ops k) (model_fs0 k) p) ++ " impl="
